@@ -876,8 +876,6 @@ zix_btree_lower_bound(const ZixBTree* const     t,
   *ti = zix_btree_end_iter;
 
   ZixBTreeNode* n           = t->root; // Current node
-  uint16_t      found_level = 0U;      // Lowest level a match was found at
-  bool          found       = false;   // True if a match was ever found
 
   // Search down until we reach a leaf
   while (!n->is_leaf) {
@@ -891,10 +889,6 @@ zix_btree_lower_bound(const ZixBTree* const     t,
                                               &equal);
 
     zix_btree_iter_set_frame(ti, n, i);
-    if (equal) {
-      found_level = ti->level;
-      found       = true;
-    }
 
     ++ti->level;
     n = zix_btree_child(n, i);
@@ -914,14 +908,15 @@ zix_btree_lower_bound(const ZixBTree* const     t,
     return ZIX_STATUS_SUCCESS;
   }
 
-  if (ti->indexes[ti->level] == ti->nodes[ti->level]->n_vals) {
-    if (found) {
-      // Found on a previous level but went too far
-      ti->level = found_level;
-    } else {
+  // If we ran off the end of a node, move up to the next value (if any)
+  while (ti->indexes[ti->level] == ti->nodes[ti->level]->n_vals) {
+    if (ti->level == 0U) {
       // Reached end (key is greater than everything in tree)
       *ti = zix_btree_end_iter;
+      break;
     }
+
+    zix_btree_iter_pop(ti);
   }
 
   return ZIX_STATUS_SUCCESS;
